@@ -360,9 +360,10 @@ func TestC06(t *testing.T) {
 	// ---- corpus: witnesses first ---------------------------------------------------------------
 	// (1) ranged pool created with an admissible, on-tick triple whose price is outside [min,max]
 	//     (Props/C06.lean `ranged_price_in_range_counterexample`)
-	c06Create(tr, bi("1000000"), bi("1000000"), bi("99900000000000000000000000000000000000"),
-		bi("100000000000000000000000000000000000000"), bi("99900000000000000000000000000000000000"))
-	c06Create(tr, bi("1000000000000"), bi("1000000000000"), bi("1000000000000000000"), bi("2000000000000000000"), bi("2000000000000000000"))
+	c06Create(tr, bi("0"), bi("65721122"), bi("3200000000000000000"), bi("3203200000000000000"), bi("3200000000000000000"))
+	//     `ranged_price_above_max_counterexample`
+	c06Create(tr, bi("25435609390"), bi("11"), bi("89000000000000"), bi("8900000000000000000"), bi("8900000000000000000"))
+	//     `ranged_price_far_below_min_counterexample` (85 % below minPrice)
 	c06Create(tr, bi("66000000000000000000"), bi("89000000000000000000000000000000"), bi("46030000000000000000000000000000000000"),
 		bi("100000000000000000000000000000000000000"), bi("47485000000000000000000000000000000000"))
 	// (2) the half-even round-down of mintProportion: one third of the pool for 10^18-1 instead of 10^18 coins
